@@ -100,7 +100,7 @@ CLAIMED = {
     ),
     "C07": (
         "Lean 4 theorems about a state-machine model of Splink's table cache (request through named key / hashed key / catalog / execute, named stores, drops, forgetting a named entry, "
-        "invalidate_cache = drop every created table + empty the dict, delete_tables_created_by_splink_from_db) and of the realtime SQL cache: for EVERY history every request returns what its SQL "
+        "invalidate_cache = drop every created table + empty the dict, delete_tables_created_by_splink_from_db, and - since the cache repair 4551b8fa - re-registration of a table under its name through Splink = forget the derived named entries + re-draw the hash salt: ops resalt / reregister, theorems reregistration_reflects_new_data(_later)) and of the realtime SQL cache: for EVERY history every request returns what its SQL "
         "produces on the current data (cache_transparent, by an invariant), invalidate_cache after a data change makes results reflect the new data, different SQL or uid never share a table, the "
         "two side conditions are necessary (counterexamples), and the realtime cache is sound iff its key determines the SQL. Tie: random histories of 15 public operations on a real linker - after "
         "every step predict() equals a fresh linker built from the saved model (oracle), and the observed cache events are replayed through the compiled Lean machine which must predict every hit and "
